@@ -152,6 +152,14 @@ def c12(tapes, params):
         tries = 0
         while len(ops) < nops and tries < nops * 4:
             tries += 1
+            if g.chance(1, 9, 'gaa?'):
+                # Get Attributes All of the Identity / TCP-IP object: never bundled by the client, so it
+                # must keep its place among operations that are
+                c, i = g.choice([(1, 1), (0xF5, 1)], 'gaaobj')
+                ops.append({'kind': 'gaa', 'ref': ('addr', (c, i, None))})
+                texts.append('@%d/%d' % (c, i) if g.draw(2, 'gaafmt') else '@0x%X/%d' % (c, i))
+                routes.append(None)
+                continue
             op = gen_op(g, w.model, unique, boundary=2, cross=2, fit=True)
             if op['kind'] == 'sas' and len(op['data']) > 64:
                 continue
@@ -174,7 +182,7 @@ def c12(tapes, params):
             for op, txt, rp in zip(ops, texts, routes):
                 kw = {} if rp is None else {'route_path': rp}
                 try:
-                    if op['kind'] in ('gas', 'sas'):
+                    if op['kind'] in ('gas', 'sas', 'gaa'):
                         po = list(m['get_attribute'].attribute_operations([txt], **kw))
                     else:
                         po = list(client.parse_operations([txt], **kw))
@@ -182,8 +190,8 @@ def c12(tapes, params):
                     w.violation('c12-unparsable-operation', 'operation text %r was refused by the parser: %s' % (txt, exc), op=op['kind'])
                     raise Violation()
                 parsed += po
-            exps = [member_expect(w.model, op) for op in ops]
-            stats['refused'] += sum(1 for e in exps if not e.ok())
+            exps = [member_expect(w.model, op) if op['kind'] != 'gaa' else None for op in ops]
+            stats['refused'] += sum(1 for e in exps if e is not None and not e.ok())
             results = []
             try:
                 conn = client.connector(host='127.0.0.1', port=PORT, timeout=8.0)
@@ -205,7 +213,13 @@ def c12(tapes, params):
             for i, (op, exp, res) in enumerate(zip(ops, exps, results)):
                 idx, dsc, req, rpy, sts, val = res
                 # with fragment=True plain reads/writes go out as the fragmented service: same result
-                bad = result_matches(op, exp, sts, val)
+                if op['kind'] == 'gaa':
+                    # not a tag: its content is only required to be the same in every configuration
+                    # (below), to succeed, and to be the answer of a Get Attributes All
+                    bad = None if (sts in (0, None) and val and 'get_attributes_all' in rpy) else \
+                        'status %r value %r, reply keys %r' % (sts, val, sorted(k for k in rpy.keys() if '.' not in k)[:6])
+                else:
+                    bad = result_matches(op, exp, sts, val)
                 if bad:
                     w.violation('c12-wrong-result', 'depth=%d multiple=%d fragment=%s: operation #%d %r (%s) -> %s' % (
                         depth, multiple, fragment, i, texts[i], short(op), bad), op=op['kind'], depth=depth, multiple=multiple)
@@ -239,7 +253,7 @@ def check_bundles(w, stream, ops, routes, multiple, stats):
     """Decode the client->server byte stream; every Multiple Service Packet's members must come from
     operations with the route path of the frame's Unconnected Send wrapper, in operation order."""
     frames, rest = rc.split_frames(stream)
-    want = [op_request(op) for op in ops]
+    want = [op_request(op) if op['kind'] != 'gaa' else rc.req_get_attrs_all([('class', op['ref'][1][0]), ('instance', op['ref'][1][1])]) for op in ops]
     pos = 0
     for f in frames:
         if f.command != rc.SEND_RR:
@@ -550,5 +564,188 @@ def c13(tapes, params):
     res = w.result()
     fired = sum(w.net.faults_fired.values())
     res['nontrivial'] = bool((stats['results'] + stats['polls_ok'] >= 1 and (fired or kind in ('NONE', 'SLOW'))) or res['violations'])
+    res['notes'] = stats
+    return res
+
+
+# ---------------------------------------------------------------------------- C13, shared proxy
+@world('c13s')
+def c13s(tapes, params):
+    """The documented multi-threaded deployment of the client: several poll.run loops in separate
+    threads share ONE proxy (one session).  Faults on the connection (late, lost, cut replies) meet
+    thread schedules: a poller may be pre-empted or *stalled* (losing virtual time) inside the
+    proxy's gateway management, while another poller takes the connection over."""
+    w = EnipWorld(tapes, params)
+    g, sch = w.gen, w.sch
+    m = w.m
+    ga, client = m['get_attribute'], m['client']
+    params.setdefault('budget', 488)
+    w.lat_mode = 'zero'
+    w.seg_mode = sch.choice(['asis', 'split', 'asis'], 'segm')
+    w.gen_tags(ntags=g.between(1, 3, 'ntags'), maxlen=params.get('maxlen', 30), types=[t for t in
+               ['INT', 'DINT', 'REAL', 'UINT', 'LINT', 'SINT', 'UDINT', 'LREAL']], min_storages=1)
+    w.start_server()
+    npollers = g.between(2, 3, 'npollers')
+    depth = g.between(1, 4, 'depth')
+    multiple = g.choice([0, 0, 250], 'multiple')
+    tmo = g.choice([1.0, 0.5, 2.0], 'timeout')
+    kind = g.weighted([(4, 'SLOW'), (2, 'STALL'), (2, 'DROP'), (1, 'FIN'), (1, 'RST'), (1, 'NONE')], 'fkind')
+    kind = params.get('kind') or kind
+    stats = {'mode': 'shared', 'kind': kind, 'pollers': npollers, 'polls_ok': 0, 'polls_failed': 0, 'values': 0,
+             'recovered': None, 'complete': False}
+    heal_at = [None]
+    nfaulty = [0]
+
+    # schedule space: line-level pre-emption / stalls inside the proxy's gateway management
+    s = w.sched
+    # focus: everything / the release path of every poll / only the code that runs after a failure
+    # (the gateway being discarded), so that the few pre-emptions land where a failed connection
+    # is still reachable by the other pollers
+    focus = sch.weighted([(1, 'all'), (2, 'release'), (3, 'failure')], 'focus13')
+    fns = (ga.proxy.close_gateway, client.client.close)
+    if focus != 'failure':
+        fns += (ga.proxy.__exit__, client.client.__exit__)
+    if focus == 'all':
+        fns += (ga.proxy.__enter__, ga.proxy.open_gateway, ga.proxy.read_details, ga.proxy.list_identity_details,
+                client.client.__enter__)
+    for fn in fns:
+        s.add_traced(fn)
+    s.preempt_left = sch.weighted([(1, 0), (3, 1), (3, 2), (2, 4)], 'pbudget')
+    s.preempt_gap = {'all': sch.choice([6, 25, 80, 300], 'pgap13'), 'release': sch.choice([4, 12, 40, 120], 'pgap13r'),
+                     'failure': sch.choice([1, 3, 6, 12], 'pgap13f')}[focus]
+    stats['focus'] = focus
+    s.stall_choices = (0.002, 0.05, 0.3, 1.1, 2.5)
+    s.stall_chance = (2, 3)
+    s._arm_preempt()
+
+    def plan(idx, c2s, s2c, peer):
+        EnipWorld._conn_plan(w, idx, c2s, s2c, peer)
+        # every request takes some virtual time to reach the server: with an instantaneous network
+        # and zero-cost computation a poll loop whose cycle arithmetic rounds to "due now" would spin
+        # at one virtual instant (real time always advances)
+        c2s.latency = lambda sch=sch: 0.001 * (1 + sch.draw(4, 'c2slat'))
+        if idx == 0 or heal_at[0] is None or w.sched.now >= heal_at[0]:
+            return
+        nfaulty[0] += 1
+        k = 28 + sch.draw(300, 'k1')
+
+        def both(p):
+            c2s.close_write()
+        if kind in ('FIN', 'RST', 'STALL'):
+            s2c.cut_at = k
+            s2c.cut_kind = kind
+            if kind != 'STALL':
+                s2c.on_cut = both
+        elif kind == 'DROP':
+            s2c.drop_sends = (1 + sch.draw(6, 'dropj'),)
+        elif kind == 'SLOW':
+            # replies late by up to a few timeouts: they arrive after their requester gave up
+            slow_from = 1 + sch.draw(4, 'slowfrom')
+            cnt = [0]
+
+            def lat():
+                cnt[0] += 1
+                if cnt[0] <= slow_from:
+                    return 0.0
+                return tmo * sch.choice([0.7, 1.02, 1.1, 1.3, 1.6, 2.2, 3.0], 'slow')
+            s2c.latency = lat
+    w.net.conn_plan = plan
+
+    def driver():
+        boot = RefSession(w, 'boot', chunk_mode='whole')
+        boot.connect()
+        boot.register()
+        w.bind_auto_tags()
+        boot.close()
+        preload_unique(w)
+        tags = sorted(w.model.tags.values(), key=lambda t: t.name)
+        heal_at[0] = w.sched.now + g.choice([2.0, 5.0, 10.0], 'heal')
+        via = ga.proxy('127.0.0.1', port=PORT, timeout=tmo, depth=depth, multiple=multiple, identity_default='sim')
+        same_n = g.chance(1, 2, 'samen')
+        n0 = 1 + g.draw(3, 'n0')
+        pollers = []
+        done_all = {'flag': False}
+
+        def make(pi):
+            nops = g.between(1, 4, 'nops')
+            exps, texts = {}, []
+            for _ in range(nops):
+                t = g.choice(tags, 'rt')
+                n = min(n0, t.length) if same_n else 1 + g.draw(min(t.length, 4), 'rn')
+                i = g.draw(t.length - n + 1, 'ri')
+                tx = '%s[%d-%d]' % (t.name, i, i + n - 1)
+                if tx in exps:
+                    continue
+                op = {'kind': 'read', 'ref': ('name', t.name), 'index': i, 'elements': n}
+                exps[tx] = (op, w.model.apply(op))
+                texts.append(tx)
+            st = {'ok': 0, 'failed': 0, 'good_after_heal': None, 'texts': texts}
+
+            def process(p, v):
+                op, exp = exps[p]
+                stats['values'] += 1
+                try:
+                    ok = v is not None and rc.enc_elems(exp.tname, list(v)) == rc.enc_elems(exp.tname, exp.values)
+                except Exception:       # noqa: BLE001
+                    ok = False
+                if not ok:
+                    w.violation('c13-wrong-result', 'shared proxy, poller %d of %d, fault %s: parameter %r delivered %r, model %s '
+                                '(a reply paired with another request)' % (pi, npollers, kind, p, v, exp.describe()), mode='shared', fault=kind)
+                if p == texts[-1]:
+                    st['ok'] += 1
+                    stats['polls_ok'] += 1
+                    if w.sched.now >= heal_at[0] and st['good_after_heal'] is None:
+                        st['good_after_heal'] = w.sched.now
+                if done_all['flag'] or (st['ok'] >= 2 and all(q['good_after_heal'] is not None for q in pollers)):
+                    process.done = True
+            process.done = False
+
+            def failure(exc):
+                st['failed'] += 1
+                stats['polls_failed'] += 1
+                if done_all['flag'] or w.sched.now > heal_at[0] + 150.0:
+                    process.done = True
+            st['process'], st['failure'] = process, failure
+            return st
+
+        for pi in range(npollers):
+            pollers.append(make(pi))
+        w.samples.append({'mode': 'shared', 'params': [q['texts'] for q in pollers], 'fault': kind, 'depth': depth,
+                          'multiple': multiple, 'timeout': tmo})
+
+        def giveup():
+            w.sched.sleep(heal_at[0] - w.sched.now + 220.0)
+            done_all['flag'] = True
+            for q in pollers:
+                q['process'].done = True
+        w.spawn(giveup, 'giveup')
+        ths = []
+        for pi, q in enumerate(pollers):
+            def body(q=q):
+                m['poll'].run(via, process=q['process'], failure=q['failure'], cycle=g_cycle[0], params=list(q['texts']),
+                              pass_thru=True, latency=0.25)
+            ths.append(w.spawn(body, 'poller%d' % pi, trace=True))
+        for th in ths:
+            th.join()
+        rec = all(q['good_after_heal'] is not None for q in pollers)
+        stats['recovered'] = rec
+        stats['stalls'] = w.sched.stalls
+        if not rec:
+            w.violation('c13-no-recovery', 'shared proxy: faults stopped at t=%.1f; pollers %r had no complete correct poll within 150 '
+                        'simulated s afterwards (polls ok %r, failed %r, fault %s)' % (
+                            heal_at[0] - w.sched.start_time, [i for i, q in enumerate(pollers) if q['good_after_heal'] is None],
+                            [q['ok'] for q in pollers], [q['failed'] for q in pollers], kind), mode='shared', fault=kind)
+        stats['complete'] = stats['polls_ok'] > 0
+        try:
+            via.close_gateway()
+        except Exception:       # noqa: BLE001
+            pass
+
+    g_cycle = [g.choice([0.3, 1.0, 0.7], 'cycle')]
+    drv = w.spawn(driver, 'client')
+    w.run(stop_when=lambda: drv._sim_state == 'done')
+    res = w.result()
+    res['nontrivial'] = bool(stats['polls_ok'] >= 2 or res['violations'])
+    stats['fired'] = dict(w.net.faults_fired)
     res['notes'] = stats
     return res
